@@ -106,7 +106,7 @@ func c04Input(r *core.Rand) inputs.Input {
 
 func (c *c04) Plan(seed uint64, tier string, worker, workers, idx int) *Plan {
 	r := core.NewRand(core.Mix(seed, 0xc04, uint64(worker), uint64(idx)))
-	p := &Plan{Prop: "C04", Limit0: c04Limits[r.Intn(len(c04Limits))], MaxSteps: 2000000}
+	p := &Plan{Prop: "C04", Limit0: c04Limits[r.Intn(len(c04Limits))], MaxSteps: 60000000}
 	p.Pool = []string{"adversarial", "adversarial", "steal", "steal", "lifo", "fifo"}[r.Intn(6)]
 	p.Sched = core.SchedSpec{Kind: []string{"random", "pct", "rtc"}[r.Intn(3)], D: r.Range(1, 3), Preempt: 30 + r.Intn(400), Horizon: 200}
 	nt := []int{1, 1, 2, 2, 3, 4}[r.Intn(6)]
